@@ -32,7 +32,7 @@ VARS = [
  ("closePromise", "thread -> promised as it was when the thread called the root's Close"),
  ("barrierBroken", "a root Close returned before everything promised at its call was delivered and flushed"),
  ("unflushed", "a delivery happened since the last Flush"),
- ("callsAfterClose", "number of reporter calls after the first root Close returned"),
+ ("callsAfterClose", "number of pass deliveries (counter, gauge, histogram), Flush or Close calls on the reporter after the first root Close returned"),
  ("reporterCloses", "number of Close calls on the reporter"),
  ("closeBeforeFlush", "the reporter was closed while deliveries were unflushed"),
  ("loopNotEnded", "a root Close returned while the report loop goroutine was still running"),
@@ -93,7 +93,7 @@ ACTIONS = [
   [("objMismatch", "(objMismatch \\/ (<<k, id, so>> \\in DOMAIN gotObj /\\ gotObj[<<k, id, so>>] # obj))"),
    ("gotObj", "Put(gotObj, <<k, id, so>>, obj)")], []),
  ("ObsAlloc", "k, id", "the cached reporter's Allocate<k> was called for identity id",
-  [("allocs", "Put(allocs, <<k, id>>, Get(allocs, <<k, id>>) + 1)"), RC], []),
+  [("allocs", "Put(allocs, <<k, id>>, Get(allocs, <<k, id>>) + 1)")], []),
  ("ObsRootCloseCall", "t", "thread t calls the root's Close",
   [("rootCloseCalled", "rootCloseCalled \\cup {t}"), ("closePromise", "Put(closePromise, t, promised)")], []),
  ("ObsRootCloseReturn", "t, err, experr, loopEnded", "the root's Close returned to thread t",
@@ -101,13 +101,12 @@ ACTIONS = [
    ("barrierBroken", "(barrierBroken \\/ unflushed \\/\n        (nonneg /\\ \\E id \\in DOMAIN closePromise[t] : Get(deliv, id) < closePromise[t][id]))"),
    ("loopNotEnded", "(loopNotEnded \\/ ~loopEnded)"),
    ("errMismatch", "(errMismatch \\/ err # experr)")], []),
- ("ObsTimerCall", "t, id, v", "thread t calls Timer.Record(v) on timer id",
-  [("timerOpen", "Put(timerOpen, t, [id |-> id, v |-> v, seen |-> 0])")], []),
+ ("ObsTimerCall", "t, id, v, inert", "thread t calls Timer.Record(v) on timer id (inert: the timer belongs to the no-op scope, which delivers nothing)",
+  [("timerOpen", "Put(timerOpen, t, [id |-> id, v |-> v, seen |-> IF inert THEN 1 ELSE 0])")], []),
  ("ObsDeliverTimer", "t, id, v", "the reporter received a timer value on thread t",
   [("timerLog", "Append(timerLog, <<id, v>>)"),
    ("timerOpen", "IF t \\in DOMAIN timerOpen /\\ timerOpen[t].id = id /\\ timerOpen[t].v = v /\\ timerOpen[t].seen = 0\n                  THEN [timerOpen EXCEPT ![t].seen = 1] ELSE timerOpen"),
-   ("timerBad", "(timerBad \\/ ~(t \\in DOMAIN timerOpen /\\ timerOpen[t].id = id /\\ timerOpen[t].v = v /\\ timerOpen[t].seen = 0))"),
-   RC], []),
+   ("timerBad", "(timerBad \\/ ~(t \\in DOMAIN timerOpen /\\ timerOpen[t].id = id /\\ timerOpen[t].v = v /\\ timerOpen[t].seen = 0))")], []),
  ("ObsTimerReturn", "t", "Timer.Record returned to thread t",
   [("timerBad", "(timerBad \\/ t \\notin DOMAIN timerOpen \\/ timerOpen[t].seen # 1)"),
    ("timerOpen", "[x \\in DOMAIN timerOpen \\ {t} |-> timerOpen[x]]")], []),
